@@ -366,6 +366,14 @@ def s_iter_next(e, st, callee, args, dty):
     return EnumV("Option", "Some", 1, {0: l.items[0]})
 
 
+def s_iter_enumerate(e, st, callee, args, dty):
+    """Iterator::enumerate over a list iterator: (index, element) pairs"""
+    l = _list_of(e, st, args[0])
+    if l is None:
+        return NotImplemented
+    return ListV([Agg("tuple", {0: Int(z3.BitVecVal(i, 64), "usize"), 1: it}) for i, it in enumerate(l.items)], "iter")
+
+
 def s_collect_vec(e, st, callee, args, dty):
     l = _list_of(e, st, args[0])
     if l is None:
@@ -389,7 +397,8 @@ BASE = {
     r"^(std::vec::|alloc::vec::)?Vec::is_empty$|^core::slice::<impl \[T\]>::is_empty$": s_vec_is_empty,
     r"^<(std::vec::|alloc::vec::)?Vec<.*> as (std::ops::)?Index(Mut)?(<usize>)?>::index(_mut)?$": s_vec_index,
     r"^<.* as (std::iter::)?IntoIterator>::into_iter$": s_into_iter,
-    r"^core::slice::<impl \[T\]>::iter(_mut)?$|^core::slice::iter$": s_into_iter,
+    r"^core::slice::<impl \[.*\]>::iter(_mut)?$|^core::slice::iter(_mut)?$": s_into_iter,
+    r"^<.* as (std::iter::)?Iterator>::enumerate$": s_iter_enumerate,
     r"^<.* as (std::iter::)?Iterator>::next$": s_iter_next,
     r"^<.* as (itertools::)?Itertools>::collect_vec$|^<.* as (std::iter::)?Iterator>::collect$": s_collect_vec,
     r"^(std::vec::|alloc::vec::)?Vec::push$": s_vec_push,
